@@ -49,7 +49,14 @@ EXPLANATION = (
     "in wire order; (6) the folded descriptors reproduce "
     "the 25 known-answer vectors recorded in test_hashutil.py when evaluated with hashlib; (7) the convergent key is "
     "the digest of the convergence hasher and every block read from the uploadable's file handle is fed to that "
-    "hasher (CFG monitor: no block is dropped before the next read or before digest(), and some execution feeds it). "
+    "hasher (CFG monitor: no block is dropped before the next read or before digest(), and some execution feeds it); "
+    "(8) every function of hashutil.py (and netstring) is a function of its own arguments: interpreted in a history of "
+    "calls that share the module's state (dict tables, globals, hash objects kept there - aliasing of hash objects and "
+    ".copy() are modelled), the same call gives the same term as on fresh state when it is repeated, after each argument "
+    "was changed in turn and for every truncation - so no hasher stored in module state is fed after it was stored, a "
+    "remembered state is copied before it is resumed and no memo key leaves an argument out. "
+    "Undecided (8): histories longer than the one interpreted (a cache that misbehaves only when it overflows or evicts), "
+    "state kept outside hashutil.py/netstring.py by the callers, containers other than dicts (exit 2), thread interleavings. "
     "Undecided: SHA-256/AES themselves, the values of runtime inputs (server seeds, RSA DER encodings), "
     "base32 arithmetic; the input-validation guards and asserts of the derivation helpers (lengths of seeds, k/n "
     "ranges - they only raise); the position of the file cursor when the convergent pass starts (f.seek(0)) and the "
@@ -58,7 +65,8 @@ EXPLANATION = (
     "(only that the chosen tuple is what the key is fed); server selection and status reporting in the anchored "
     "upload/checker functions.")
 TECHNIQUE = ("static analysis: symbolic folding of hashutil.py to derivation terms, compared with terms parsed from "
-             "the specification documents and a compat-frozen table; call-site chains as normalised term trees")
+             "the specification documents and a compat-frozen table; call-site chains as normalised term trees; the same "
+             "interpreter run over a history of calls sharing module state (hash-object aliasing modelled) for history independence")
 
 HU = "allmydata.util.hashutil"
 
@@ -312,6 +320,31 @@ class BMeth:
         self.name = name
 
 
+class MDict:
+    """A dict that lives in module state (a cache / memo table of the module under interpretation).  It is shared by
+    every call made on the same Sym, so that a *history* of calls can be interpreted.  Keys are constants, terms and
+    tuples of them, compared structurally: distinct parameter symbols stand for distinct byte strings."""
+
+    def __init__(self, where):
+        self.where = where
+        self.d = {}
+
+    def __len__(self):
+        return len(self.d)
+
+    def __bool__(self):
+        return bool(self.d)
+
+
+class _PyExc(Unsupported):
+    """A python exception of the interpreted code that the code itself may catch (KeyError of a cache lookup); not
+    caught there, it ends the folding like anything else the interpreter does not model."""
+
+    def __init__(self, name):
+        Unsupported.__init__(self, "the code raises %s" % name)
+        self.name = name
+
+
 class Ext:
     def __init__(self, dotted):
         self.dotted = dotted
@@ -322,7 +355,20 @@ class Builtin:
         self.name = name
 
 
-_BUILTINS = {"len", "bytes", "int", "isinstance", "bool", "str", "repr", "type"}
+_BUILTINS = {"len", "bytes", "int", "isinstance", "bool", "str", "repr", "type", "dict"}
+_GLOBALS = "\0global names"        # key of a function environment: the names its `global` statements declare
+_DICT_MAKERS = {"dict", "OrderedDict", "WeakValueDictionary"}
+
+
+def _makes_state(e):
+    """A module-level initialiser that builds a mutable object (dict display, call) rather than a constant."""
+    if isinstance(e, ast.Dict):
+        return True
+    if isinstance(e, ast.Call):
+        p = attr_path(e.func) or ""
+        return p.split(".")[-1] in _DICT_MAKERS or p in ("hashlib.sha256", "hashlib.sha1", "sha256", "sha1") \
+            or p.split(".")[-1].endswith("Hasher")
+    return False
 _CONST = (bytes, int, str, type(None), bool, float)
 
 
@@ -343,6 +389,7 @@ class Sym:
         self.summ = summaries or {}
         self.steps = 0
         self.guards = []
+        self.modstate = {}      # (module name, variable) -> value kept across the calls made on this Sym
 
     # -- calls
     def call(self, fn: FuncInfo, args, kwargs=None, selfobj=None):
@@ -385,6 +432,8 @@ class Sym:
     def call_pkg(self, fn, args, kwargs):
         try:
             return self.call(fn, args, kwargs)
+        except _PyExc:
+            raise
         except Unsupported:
             if fn.qual not in self.summ and all(is_const(a) or isinstance(a, T) for a in args) and not kwargs:
                 return T(("opaque", fn.name, tuple(args)))
@@ -439,8 +488,34 @@ class Sym:
                     o = self.expr(t.value, env, m)
                     if isinstance(o, Obj):
                         o.attrs.pop(t.attr, None)
+                elif isinstance(t, ast.Subscript) and isinstance(self.expr(t.value, env, m), MDict):
+                    o = self.expr(t.value, env, m)
+                    k = self.key(self.expr(t.slice, env, m))
+                    if k not in o.d:
+                        raise _PyExc("KeyError")
+                    del o.d[k]
                 else:
                     raise Unsupported("del target")
+        elif isinstance(st, ast.Global):
+            env.setdefault(_GLOBALS, set()).update(st.names)
+        elif isinstance(st, ast.Try) and not getattr(st, "finalbody", None):
+            try:
+                self.block(st.body, env, m)
+            except _PyExc as ex:
+                for h in st.handlers:
+                    names = []
+                    if h.type is not None:
+                        names = [attr_path(x) or "?" for x in (h.type.elts if isinstance(h.type, ast.Tuple) else [h.type])]
+                    if h.type is None or any(nm.split(".")[-1] in (ex.name, "LookupError", "Exception", "BaseException")
+                                             for nm in names):
+                        if h.name:
+                            raise Unsupported("except ... as %s" % h.name)
+                        self.block(h.body, env, m)
+                        break
+                else:
+                    raise
+            else:
+                self.block(st.orelse, env, m)
         elif isinstance(st, ast.If):
             c = self.expr(st.test, env, m)
             if c is UNKNOWN or isinstance(c, T):
@@ -452,9 +527,22 @@ class Sym:
         else:
             raise Unsupported("statement %s" % type(st).__name__)
 
+    def key(self, k):
+        """A dict key of the interpreted code: constants, terms, tuples of them (compared structurally)."""
+        if isinstance(k, T) or is_const(k):
+            return k
+        if isinstance(k, tuple):
+            return tuple(self.key(x) for x in k)
+        raise Unsupported("dict key %r" % (k,))
+
     def assign(self, t, v, env, m):
         if isinstance(t, ast.Name):
-            env[t.id] = v
+            if t.id in env.get(_GLOBALS, ()):
+                self.modstate[(m.name, t.id)] = v
+            else:
+                env[t.id] = v
+        elif isinstance(t, ast.Subscript) and isinstance(self.expr(t.value, env, m), MDict):
+            self.expr(t.value, env, m).d[self.key(self.expr(t.slice, env, m))] = v
         elif isinstance(t, ast.Attribute):
             o = self.expr(t.value, env, m)
             if not isinstance(o, Obj):
@@ -469,13 +557,23 @@ class Sym:
 
     # -- expressions
     def name(self, nm, env, m):
-        if nm in env:
+        if nm in env and nm not in env.get(_GLOBALS, ()):
             return env[nm]
+        if (m.name, nm) in self.modstate:
+            return self.modstate[(m.name, nm)]
         if nm in m.funcs:
             return m.funcs[nm]
         if nm in m.classes:
             return m.classes[nm]
         if nm in m.assigns:
+            vs = m.assigns[nm]
+            if len(vs) == 1 and _makes_state(vs[0]):
+                # module state (a cache table, a shared hasher): one object for the whole history interpreted on this Sym
+                self.modstate[(m.name, nm)] = None      # a self-referential initialiser does not recurse
+                v = self.modstate[(m.name, nm)] = self.expr(vs[0], {}, m)
+                if isinstance(v, MDict):
+                    v.where = "%s.%s" % (m.name, nm)
+                return v
             try:
                 return self.folder.name(nm, m, None)
             except NotConstant as e:
@@ -526,6 +624,13 @@ class Sym:
             return self.name(e.id, env, m)
         if isinstance(e, ast.Tuple):
             return tuple(self.expr(x, env, m) for x in e.elts)
+        if isinstance(e, ast.Dict):
+            if any(k is None for k in e.keys):
+                raise Unsupported("** in a dict display")
+            d = MDict("a dict")
+            for k, v in zip(e.keys, e.values):
+                d.d[self.key(self.expr(k, env, m))] = self.expr(v, env, m)
+            return d
         if isinstance(e, ast.BinOp):
             return self.binop(e.op, self.expr(e.left, env, m), self.expr(e.right, env, m))
         if isinstance(e, ast.Attribute):
@@ -537,7 +642,7 @@ class Sym:
                 if f is not None:
                     return Bound(o, f)
                 raise Unsupported("attribute %s of a %s instance is not set" % (e.attr, o.cls.name))
-            if isinstance(o, (HashObj, SpecHasher)):
+            if isinstance(o, (HashObj, SpecHasher, MDict)):
                 return BMeth(o, e.attr)
             if isinstance(o, Ext):
                 return Ext(o.dotted + "." + e.attr)
@@ -551,6 +656,15 @@ class Sym:
         if isinstance(e, ast.Subscript):
             v = self.expr(e.value, env, m)
             s = e.slice
+            if isinstance(v, MDict) and not isinstance(s, ast.Slice):
+                k = self.key(self.expr(s, env, m))
+                if k not in v.d:
+                    raise _PyExc("KeyError")
+                return v.d[k]
+            if isinstance(v, tuple) and not isinstance(v, T) and not isinstance(s, ast.Slice):
+                i = self.expr(s, env, m)
+                if isinstance(i, int) and not isinstance(i, (T, bool)) and -len(v) <= i < len(v):
+                    return v[i]
             if isinstance(s, ast.Slice) and s.lower is None and s.step is None and s.upper is not None:
                 n = self.expr(s.upper, env, m)
                 if isinstance(n, int) and not isinstance(n, (T, bool)) and isinstance(v, (bytes, T)):
@@ -558,8 +672,10 @@ class Sym:
             raise Unsupported("subscript %s" % ast.unparse(e))
         if isinstance(e, ast.Compare):
             vals = [self.expr(e.left, env, m)] + [self.expr(c, env, m) for c in e.comparators]
+            if len(vals) == 2 and isinstance(e.ops[0], (ast.In, ast.NotIn)) and isinstance(vals[1], MDict):
+                return (self.key(vals[0]) in vals[1].d) == isinstance(e.ops[0], ast.In)
             if len(vals) == 2 and isinstance(e.ops[0], (ast.Is, ast.IsNot)) and any(v is None for v in vals) \
-                    and any(isinstance(v, (T, Obj, HashObj, SpecHasher)) for v in vals):
+                    and any(isinstance(v, (T, Obj, HashObj, SpecHasher, MDict)) for v in vals):
                 return isinstance(e.ops[0], ast.IsNot)      # a byte string / object is never None
             if any(isinstance(v, T) or v is UNKNOWN for v in vals):
                 return UNKNOWN
@@ -608,8 +724,17 @@ class Sym:
             return self.instantiate(f, args, kwargs)
         if isinstance(f, Bound):
             return self.call(f.fn, args, kwargs, selfobj=f.obj)
+        if isinstance(f, BMeth) and isinstance(f.obj, MDict):
+            return self.dictmeth(f.obj, f.name, args, kwargs)
         if isinstance(f, BMeth):
             o = f.obj
+            if f.name == "copy" and not args and not kwargs:
+                # a copy is a new object with the same state: feeding it leaves the original alone
+                if isinstance(o, HashObj):
+                    return HashObj(o.algo, o.parts)
+                c = SpecHasher(o.trunc)
+                c.parts = list(o.parts)
+                return c
             if f.name == "update" and len(args) == 1 and not kwargs:
                 if not isinstance(args[0], (bytes, T)):
                     raise Unsupported("hasher.update(%r)" % (args[0],))
@@ -625,9 +750,17 @@ class Sym:
                 return HashObj(f.dotted.split(".")[1], args)
             if f.dotted == "os.urandom":
                 return T(("opaque", "os.urandom", tuple(args)))
+            if f.dotted.split(".")[-1] in _DICT_MAKERS and not args and not kwargs:
+                return MDict("a dict")
+            if f.dotted in ("copy.copy", "copy.deepcopy") and len(args) == 1 and not kwargs:
+                return self.copyof(args[0], f.dotted == "copy.deepcopy")
             raise Unsupported("call of %s" % f.dotted)
         if isinstance(f, Builtin):
+            if f.name == "dict" and not args and not kwargs:
+                return MDict("a dict")
             if f.name == "len" and len(args) == 1:
+                if isinstance(args[0], MDict):
+                    return len(args[0])
                 if isinstance(args[0], (bytes, T)):
                     return length(args[0])
             if f.name == "bytes" and len(args) == 1 and isinstance(args[0], (bytes, T)):
@@ -639,6 +772,71 @@ class Sym:
             if f.name == "bool" and len(args) == 1:
                 return UNKNOWN if (isinstance(args[0], T) or args[0] is UNKNOWN) else bool(args[0])
         raise Unsupported("call %s" % ast.unparse(e.func))
+
+
+def _sym_dictmeth(self, o, name, args, kwargs):
+    if kwargs and not (name == "popitem" and set(kwargs) == {"last"}):
+        raise Unsupported("dict.%s with keywords" % name)
+    if name in ("get", "pop", "setdefault") and 1 <= len(args) <= 2:
+        k = self.key(args[0])
+        if k in o.d:
+            return o.d.pop(k) if name == "pop" else o.d[k]
+        if name == "pop" and len(args) == 1:
+            raise _PyExc("KeyError")
+        dflt = args[1] if len(args) == 2 else None
+        if name == "setdefault":
+            o.d[k] = dflt
+        return dflt
+    if name == "clear" and not args:
+        o.d.clear()
+        return None
+    if name == "__contains__" and len(args) == 1:
+        return self.key(args[0]) in o.d
+    if name == "__getitem__" and len(args) == 1:
+        k = self.key(args[0])
+        if k not in o.d:
+            raise _PyExc("KeyError")
+        return o.d[k]
+    if name == "__setitem__" and len(args) == 2:
+        o.d[self.key(args[0])] = args[1]
+        return None
+    if name == "move_to_end" and 1 <= len(args) <= 2:
+        k = self.key(args[0])
+        if k not in o.d:
+            raise _PyExc("KeyError")
+        v = o.d.pop(k)
+        if len(args) == 2 and args[1] is False:
+            o.d = dict([(k, v)] + list(o.d.items()))
+        else:
+            o.d[k] = v
+        return None
+    if name == "popitem" and len(args) <= 1:
+        last = kwargs.get("last", args[0] if args else True)
+        if not o.d:
+            raise _PyExc("KeyError")
+        k = list(o.d)[-1 if last else 0]
+        return (k, o.d.pop(k))
+    raise Unsupported("dict method %s" % name)
+
+
+def _sym_copyof(self, v, deep):
+    if isinstance(v, HashObj):
+        return HashObj(v.algo, v.parts)
+    if isinstance(v, SpecHasher):
+        c = SpecHasher(v.trunc)
+        c.parts = list(v.parts)
+        return c
+    if isinstance(v, Obj):
+        c = Obj(v.cls)
+        c.attrs = {k: (self.copyof(x, True) if deep else x) for k, x in v.attrs.items()}     # shallow: members shared
+        return c
+    if isinstance(v, T) or is_const(v) or isinstance(v, tuple):
+        return v
+    raise Unsupported("copy of %r" % (v,))
+
+
+Sym.dictmeth = _sym_dictmeth
+Sym.copyof = _sym_copyof
 
 
 def finish(v):
@@ -947,6 +1145,72 @@ def run(ctx: Context):
                     raise AnalysisError("%s cannot be folded: %s" % (nm, e))
                 check(r, fn, v, want(tr), " (truncate_to=%r)" % (tr,))
                 r.count(s.steps)
+
+    # ---- 9. a derivation is a function of its own arguments ----------------------
+    # Rule 1 (and the summaries below) look at one call on fresh module state.  A table of hasher states or digests
+    # kept in the module between calls (a prefix-state cache, a memo) is part of the derivation as well: here every
+    # function is interpreted in a *history* of calls made on one interpreter, so that whatever the earlier calls left
+    # in module state - including a live hash object that was stored and then fed on - is seen by the later ones.
+    SPELLED = ["storage_index_hash", "my_renewal_secret_hash", "my_cancel_secret_hash", "file_renewal_secret_hash",
+               "file_cancel_secret_hash", "bucket_renewal_secret_hash", "bucket_cancel_secret_hash"]
+    with ctx.rule("C17.9", "R5", "every derivation depends on its own arguments only: interpreted in a history of calls "
+                  "that share the module's state (the same arguments again, each argument changed in turn, every "
+                  "truncation), each call gives the term the same call gives on fresh state - no hasher object kept in "
+                  "module state is fed after it was stored, a remembered state is copied before use, a lookup key leaves "
+                  "no argument out", expected=4 + len(SPELLED) + len(FROZEN)) as r:
+        hist = Sym(idx)
+
+        def closed(sym, fn, args):
+            sym.steps = 0
+            v = sym.call(fn, list(args))
+            if isinstance(v, Obj) and v.cls.lookup("update") is not None and v.cls.lookup("digest") is not None:
+                sym.call(v.cls.lookup("update"), [DATA], {}, selfobj=v)       # an open hasher: feed <DATA>, take the digest
+                v = sym.call(v.cls.lookup("digest"), [], {}, selfobj=v)
+            return v
+
+        def say(v):
+            return show(v) if isinstance(v, (T, bytes)) else repr(v)
+
+        def history(fn, nargs, truncs):
+            base = [P(i) for i in range(nargs)]
+            variants = [base] + [base[:i] + [P(100 + i)] + base[i + 1:] for i in reversed(range(nargs))] + [base]
+            calls = [(a, tr) for a in variants for tr in truncs]
+            done = []
+            for (a, tr) in calls:
+                full = a + ([tr] if tr is not None else [])
+                try:
+                    want = closed(Sym(idx), fn, full)
+                except Unsupported as e:
+                    raise AnalysisError("%s cannot be folded: %s" % (fn.name, e))
+                try:
+                    got = closed(hist, fn, full)
+                except Unsupported as e:
+                    raise AnalysisError("%s cannot be folded after the calls %s: %s" % (
+                        fn.name, "; ".join(done[-3:]) or "of the functions before it", e))
+                r.count(hist.steps)
+                me = "%s(%s)" % (fn.name, ", ".join(say(x) for x in full))
+                if got != want:
+                    state = sorted("%s.%s" % k for k, v in hist.modstate.items() if k[0] == fn.module.name or isinstance(v, MDict))
+                    r.violation(fn, fn.loc(), "%s gives %s when it is called after %s, and %s when it is the first call: the "
+                                "result depends on earlier calls through the state kept in %s (a hash object stored there and "
+                                "fed afterwards, a remembered state used without copying it, or a lookup key that leaves an "
+                                "argument out), so the secrets / keys derived for the second and later servers or files differ "
+                                "from the specified ones" % (me, say(got), "; ".join(done[-3:]) or "the functions before it",
+                                                             say(want), ", ".join(state) or "module state"))
+                    return False
+                done.append(me)
+            return True
+
+        ok = True
+        for (fn, nargs, truncs) in ((nsfn, 1, (None,)), (F("tagged_hasher"), 1, (None, 16)), (F("tagged_hash"), 2, (None, 16)),
+                                    (F("tagged_pair_hash"), 3, (None, 16))):
+            r.site(fn, None, "primitive")
+            ok = history(fn, nargs, truncs) and ok
+        for nm in SPELLED + sorted(FROZEN):
+            fn = F(nm)
+            r.site(fn, None)
+            if ok:          # built on the primitives: a primitive that is not a function of its arguments is reported once
+                history(fn, len(first_positional_params(fn)), (None,))
 
     # the verified primitives are used as summaries from here on, so that a broken primitive is reported once
     summaries = {
